@@ -195,7 +195,7 @@ class Frame:
 class Actor:
     __slots__ = ("aid", "stack", "task", "ended", "end_exc", "parent", "harness_cancel", "spawned_in", "gate_forced",
                  "via", "held", "started", "cancel_landed", "gate_forced_seq", "pending_cancel", "caught_cancels",
-                 "exempt_cancel", "stale_cancel")
+                 "exempt_cancel", "stale_cancel", "timeout_depth")
 
     def __init__(self, aid, stack, parent=None):
         self.aid = aid
@@ -216,6 +216,7 @@ class Actor:
         self.caught_cancels = 0
         self.exempt_cancel = False
         self.stale_cancel = False
+        self.timeout_depth = 0
 
 
 def _gate_forced_before(self, seq):
@@ -364,7 +365,7 @@ def reachable(target, root, seen=None) -> bool:
 # ------------------------------------------------------------------------------------------------
 BASE_CFG = dict(
     w=dict(probe=0, scope=0, updated=0, spawn=0, record=0, log=0, pause=0, raise_=0, cancel_self=0,
-           check_cancel=0, try_=0, gc=0, reseed=0),
+           check_cancel=0, try_=0, gc=0, reseed=0, timeout_=0),
     max_depth=4, max_blocks=10, max_ops=6, p_async=2, disposables=0, disp_faults=0, disp_pause=1,
     completion=0, logger=0, trace=0, names=1, spawn_fail=0, spawn_gate=(1, 0, 0), spawn_via_loop=0,
     probe_each=False, pause_between=False, restore=False, owner_probe=False, top_scope=False,
@@ -391,7 +392,7 @@ def _cfg_for(pid: str, profile: str) -> dict:
         w.update(probe=5, scope=4, updated=3, pause=1)
         c.update(disposables=2, lookup=True, max_blocks=14, max_depth=5, prebuilt=1)
     elif pid == "C02":
-        w.update(probe=1, scope=5, updated=2, pause=2, raise_=2, try_=2, spawn=1)
+        w.update(probe=1, scope=5, updated=2, pause=2, raise_=2, try_=2, spawn=1, timeout_=1)
         c.update(disposables=1, restore=True, owner_probe=True, spawn_fail=1, spawn_gate=(2, 1, 1), prebuilt=1, completion=1)
         if profile in ("disp", "disp-sweep"):
             c.update(disposables=3, disp_faults=2)
@@ -402,14 +403,14 @@ def _cfg_for(pid: str, profile: str) -> dict:
         c.update(probe_each=True, pause_between=True, lookup=True, spawn_via_loop=1, top_scope="mostly", max_blocks=12,
                  disposables=2, disp_pause=2, prebuilt=1)
     elif pid == "C06":
-        w.update(scope=3, updated=1, spawn=5, pause=2, raise_=1, try_=1)
+        w.update(scope=3, updated=1, spawn=5, pause=2, raise_=1, try_=1, timeout_=1)
         c.update(join=True, spawn_fail=1, spawn_gate=(2, 2, 2), top_scope="mostly", p_async=4, disposables=1, disp_pause=2, prebuilt=1)
         if profile in ("sweep", "cancel"):
             c.update(cancel_mode="sweep" if profile == "sweep" else "random")
         if profile == "disp":
             c.update(disposables=3, disp_faults=1, p_async=7)
     elif pid == "C07":
-        w.update(scope=4, updated=1, spawn=3, pause=3, cancel_self=1, check_cancel=2, try_=2)
+        w.update(scope=4, updated=1, spawn=3, pause=3, cancel_self=1, check_cancel=2, try_=2, timeout_=1)
         c.update(cancel_rules=True, join=False, spawn_gate=(1, 2, 2), top_scope=True, p_async=4, disposables=1,
                  disp_pause=2, try_swallow=0, swallow_cancel=1,
                  cancel_mode="sweep" if profile in ("sweep", "disp-sweep") else ("random" if profile == "cancel" else None))
@@ -555,7 +556,7 @@ class Gen:
         ops = []
         for _ in range(n):
             k = self.keys[s.weighted(self.weights, "op")]
-            if k in ("scope", "updated", "try_", "spawn") and (depth >= c["max_depth"] or self.blocks >= c["max_blocks"]):
+            if k in ("scope", "updated", "try_", "spawn", "timeout_") and (depth >= c["max_depth"] or self.blocks >= c["max_blocks"]):
                 k = "pause" if c["w"]["pause"] else ("probe" if c["w"]["probe"] else "log" if c["w"]["log"] else "record")
                 if not c["w"].get(k if k != "raise_" else "raise_", 0):
                     continue
@@ -605,6 +606,13 @@ class Gen:
                 ops.append(["log", s.draw(4, "level"), s.draw(6, "fmt"), s.draw(4, "exc")])
             elif k == "pause":
                 ops.append(["pause"])
+            elif k == "timeout_":
+                if in_sync:
+                    continue
+                # the standard library's own cancellation scope around library calls: `async with asyncio.timeout(0)` expires at the
+                # next loop iteration, cancels the task and turns that cancellation into TimeoutError when it arrives at its exit
+                self.blocks += 1
+                ops.append(["timeout", self.block(depth + 1, in_sync)])
             elif k == "gc":
                 ops.append(["gc"])  # a cyclic garbage collection happens here
             elif k == "reseed":
@@ -898,6 +906,8 @@ class Engine:
                 sim.event("reseed")
             elif kind == "deep":
                 await self.op_deep(actor, op)
+            elif kind == "timeout":
+                await self.op_timeout(actor, op)
             elif kind == "scope":
                 await self.op_scope(actor, op)
             elif kind == "updated":
@@ -1264,7 +1274,7 @@ class Engine:
             # ENCLOSING scope whose child failed (it aborts and cancels this task); the scope's own group never lets the
             # cancellation it requested itself escape
             cancellable = (actor.harness_cancel or actor.cancel_landed is not None or actor.spawned_in is not None
-                           or actor.stale_cancel
+                           or actor.stale_cancel or actor.timeout_depth > 0
                            or any(g.kind == "scope" and g.is_async and g.child_failed for g in actor.stack))
             if f.body_exc is not None and left is not f.body_exc:
                 cancelled_in_exit = isinstance(left, asyncio.CancelledError) and cancellable
@@ -1381,6 +1391,63 @@ class Engine:
                                  f"{key}: {self.diff(before2[key], after2[key])}", path="updated-again")
         if left is not None:
             raise left
+
+    async def op_timeout(self, actor, op):
+        """`async with asyncio.timeout(0): <body>` - the deadline has passed when the block is entered, so asyncio cancels the task
+        at the next loop iteration (if the body is suspended then) and its __aexit__ converts the CancelledError that comes up
+        through the library's blocks into TimeoutError, restoring Task.cancelling().  A cancellation the library loses on the
+        way shows as: the timeout expired, yet no TimeoutError came out and nobody else caught the cancellation."""
+        sim = self.sim
+        task = asyncio.current_task()
+        caught0 = actor.caught_cancels
+        cancelling0 = task.cancelling()
+        depth0 = len(actor.stack)
+        body_exc = None
+        raised = None
+        cm = asyncio.timeout(0)
+        seq0 = sim.event("timeout-enter", actor.aid)
+        nframes0 = len(self.frames)
+        actor.timeout_depth += 1
+        try:
+            async with cm:
+                try:
+                    await self.run_ops(actor, op[1])
+                except BaseException as exc:
+                    body_exc = exc
+                    raise
+        except TimeoutError as exc:
+            raised = exc
+        finally:
+            del actor.stack[depth0:]
+            actor.timeout_depth -= 1
+        expired = cm.expired()
+        sim.event("timeout-exit", actor.aid, expired, type(raised).__name__)
+        if raised is not None and actor.pending_cancel:
+            # asyncio.timeout() attributes whatever CancelledError arrives at its exit to itself once it has expired: a request
+            # made by somebody else that was still pending is consumed by it - by the standard library, i.e. by user-level code
+            actor.pending_cancel = False
+            actor.caught_cancels += 1
+            if actor.cancel_landed is not None:
+                actor.exempt_cancel = True
+            sim.stats["cancellation_consumed_by_asyncio_timeout"] += 1
+        if expired:
+            sim.stats["fault:asyncio_timeout_expired"] += 1
+            sim.nontrivial = True
+        disturbed = (actor.harness_cancel or actor.cancel_landed is not None or actor.stale_cancel
+                     # a user cleanup error (a disposable double that raised) may replace the propagating cancellation ...
+                     or self.double_raised_after(actor, seq0)
+                     # ... and CPython's TaskGroup drops a cancellation that arrives while it is aborting (ground rule 5)
+                     #     (it aborts when a child failed and also when it is left with the body's own exception)
+                     or any(f.child_failed or (f.body_exc is not None and not isinstance(f.body_exc, asyncio.CancelledError))
+                            for f in self.frames[nframes0:] if f.actor is actor))
+        if expired and raised is None and not disturbed:
+            if body_exc is None and actor.caught_cancels == caught0:
+                sim.fail("timeout-cancel-lost", f"actor {actor.aid}: asyncio.timeout() expired inside the block (it cancelled the task) but the body "
+                         f"ended normally: the cancellation was lost on its way through the library's blocks")
+        if raised is not None and not disturbed and task.cancelling() != cancelling0:
+            sim.fail("timeout-cancel-accounting", f"actor {actor.aid}: after asyncio.timeout() turned its cancellation into TimeoutError the task's "
+                     f"cancelling() count is {task.cancelling()}, it was {cancelling0} before the block")
+        # (the TimeoutError itself is ordinary user-level control flow: swallowed here, the program goes on)
 
     async def op_deep(self, actor, op):
         from contextlib import ExitStack
@@ -2316,7 +2383,7 @@ PROPS = {
                "the state answers, probe-log scope prefix and owning task group are compared before/after; scopes may carry completion "
                "callbacks that raise or use the library themselves; non-trivial = at least one fault fired or two blocks nested",
                sweeps=("sweep", "disp-sweep")),
-    "C03": _mk("C03", "exploration", {"quick": [("plain", 90000)], "thorough": [("plain", 1800000), ("plain-deep", 360000)]},
+    "C03": _mk("C03", "exploration", {"quick": [("plain", 70000)], "thorough": [("plain", 1800000), ("plain-deep", 360000)]},
                "2..4 actors (ctx.spawn / loop.create_task) each running its own nesting of scopes/updates with a pause between any "
                "two ops; every actor probes after every op against its own shadow stack; non-trivial = at least two actors"),
     "C06": _mk("C06", "fault_enumeration",
